@@ -117,6 +117,29 @@ def _find_seq_call(repo, fi, stmts):
                     lv = unparse(n.generators[0].target)
                     kw = {k.arg: k.value for k in n.elt.keywords if k.arg}
                     return sym, _bind(sym, list(n.elt.args), kw, lv), unparse(n.generators[0].iter), n
+            # the builtin map(worker, features) / map(partial(worker, ...), features) / map(<local partial>, features)
+            if isinstance(n, ast.Call) and isinstance(n.func, ast.Name) and n.func.id == "map" and len(n.args) == 2 and not n.keywords:
+                f = n.args[0]
+                pos, kw = [], {}
+                if isinstance(f, ast.Call) and call_name(f) == "partial" and f.args:
+                    pos = list(f.args[1:])
+                    kw = {k.arg: k.value for k in f.keywords if k.arg}
+                    f = f.args[0]
+                sym = repo.resolve_name(fi.module, f.id) if isinstance(f, ast.Name) else None
+                if not isinstance(sym, FunctionInfo) and isinstance(f, ast.Name):
+                    lp = _local_partial(repo, fi, f.id)
+                    if lp is not None:
+                        sym, pos, kw = lp
+                if isinstance(sym, FunctionInfo):
+                    b = {}
+                    for i, e in enumerate(pos):
+                        b[sym.params[i]] = _norm(e, None)
+                    for k, v in kw.items():
+                        b[k] = _norm(v, None)
+                    first_free = next((p_ for p_ in sym.params if p_ not in b), None)
+                    if first_free is not None:
+                        b[first_free] = LV
+                        return sym, b, unparse(n.args[1]), n
             if isinstance(n, ast.For):
                 for c in ast.walk(n):
                     if isinstance(c, ast.Call) and isinstance(c.func, ast.Name):
